@@ -464,6 +464,8 @@ def chain_label(label):
 
 # ------------------------------------------------------------------ JSON (replay cases carry concrete decks)
 def _num_json(x, env):
+    if hasattr(x, 'suffix'):
+        return _num_json(x.v, env) + x.suffix
     if isinstance(x, RatFn):
         return dec(x.evalf(env))
     if isinstance(x, str):
@@ -511,6 +513,7 @@ def to_json(deck, env):
         'trs': {str(k): [[_num_json(v, env) for v in p], star] for k, (p, star) in deck.trs.items()},
         'imp_cards': {k: [_num_json(v, env) for v in vals] for k, vals in deck.imp_cards.items()},
         'mats': {str(k): v for k, v in deck.mats.items()},
+        'imp_ref': {k: [_num_json(v, env) for v in vals] for k, vals in getattr(deck, 'imp_ref', {}).items()},
         'lattice_opt': deck.lattice_opt,
     }
 
@@ -561,7 +564,8 @@ def from_json(j):
         d.surfs.append(Surf(s['id'], s['mn'], [_fr(v) for v in s['params']], s['tr'], s['bc']))
     for k, (p, star) in j['trs'].items():
         d.trs[int(k)] = ([_fr(v) for v in p], star)
-    d.imp_cards = {k: [_fr(v) for v in vals] for k, vals in j.get('imp_cards', {}).items()}
+    d.imp_cards = {k: list(vals) for k, vals in j.get('imp_cards', {}).items()}      # tokens as written (strings)
+    d.imp_ref = {k: [_fr(v) for v in vals] for k, vals in j.get('imp_ref', {}).items()}
     d.mats = {int(k): [tuple(x) for x in v] for k, v in j.get('mats', {}).items()}
     d.lattice_opt = j.get('lattice_opt', [])
     return d
